@@ -89,6 +89,14 @@ def run(mod, tier, all_violations=False, t0=None, extra=None):
 
 def replay(case):
     """Re-execute one transition from the recorded state with a plain call of hist.expand (no search)."""
+    if case["op"].get("op") == "normalise":
+        from .props import c15
+
+        viol, _ = c15.normalisation_family(None, "quick")
+        viol = [v for v in viol if v["op"] == case["op"]]
+        for v in viol:
+            print("  %s :: %s" % (v["site"], v["detail"][:400]))
+        return bool(viol)
     if case["op"].get("op") == "from_array":
         from .props import c15
 
